@@ -6,9 +6,17 @@
 From Coq Require Import List ZArith NArith String Bool Lia FMapPositive.
 From SCC Require Import Base.Sexp Lang.AxSyn Sem.AxSem Model.ParMoves Model.Backend Model.X86 Sem.X86Sem Sem.X86Wf
      Generated.Constants Proof.X86State Proof.X86Sel Proof.X86Exec Proof.X86ParMoves Proof.SubstGraph Proof.X86Subst.
+From SCC Require Export Proof.SimFrag.   (* the fragments and the back-end independent lemmas *)
 Import ListNotations.
 Open Scope Z_scope.
 Open Scope list_scope.
+(* names that lived in this file before they moved to Proof/SimFrag.v (kept for qualified uses) *)
+Notation is_int_binding := SimFrag.is_int_binding (only parsing).
+Notation ctx_int := SimFrag.ctx_int (only parsing).
+Notation lookup_nth := SimFrag.lookup_nth (only parsing).
+Notation nth_lookup := SimFrag.nth_lookup (only parsing).
+Notation env_ctx_nth := SimFrag.env_ctx_nth (only parsing).
+Notation nth_error_mid := SimFrag.nth_error_mid (only parsing).
 
 (* ---------- what straight-line code leaves alone ---------- *)
 (* everything but registers, flags and spill slots: heap, output, the stack outside the spill
@@ -238,42 +246,10 @@ Lemma goto_label_at im pc cs j l s :
 Proof. intros LA H NH. unfold goto_label. now rewrite (LA j l H NH). Qed.
 Lemma code_at_nth im pc cs j c : code_at im pc cs -> nth_error cs j = Some c -> PM.find (padd pc j) (code im) = Some c.
 Proof. intros CA H. exact (CA j c H). Qed.
-Lemma nth_error_mid {X} (a : list X) x b : nth_error (a ++ x :: b) (List.length a) = Some x.
-Proof. rewrite nth_error_app2 by lia. now rewrite Nat.sub_diag. Qed.
 
 (* ---------- the state relation ---------- *)
-Definition is_int_binding (b : binding) : bool :=
-  match bchi b, bty b with Ext, I64 => true | _, _ => false end.
-Definition ctx_int (c : ctx) : bool := forallb is_int_binding c.
+(* is_int_binding, ctx_int, lookup_nth, nth_lookup, env_ctx_nth: Proof/SimFrag.v *)
 
-Lemma lookup_nth (e : env) x v :
-  AxSem.lookup e x = Some v -> exists i y, nth_error e i = Some (y, v) /\ idn y = x.
-Proof.
-  induction e as [|[y w] e IH]; cbn; [discriminate|].
-  destruct (N.eqb_spec (idn y) x) as [E|E].
-  - intros H; inversion H; subst. exists O, y. cbn. auto.
-  - intros H. destruct (IH H) as (i & y' & Hn & Hy). exists (S i), y'. cbn. auto.
-Qed.
-Lemma nth_lookup (e : env) i y v :
-  NoDup (env_ids e) -> nth_error e i = Some (y, v) -> AxSem.lookup e (idn y) = Some v.
-Proof.
-  revert i. induction e as [|[y0 w] e IH]; intros i ND H; [destruct i; discriminate|].
-  cbn in ND. inversion ND as [|? ? NI ND']; subst. destruct i as [|i]; cbn in H; cbn [AxSem.lookup].
-  - inversion H; subst. now rewrite N.eqb_refl.
-  - destruct (N.eqb_spec (idn y0) (idn y)) as [E|E]; [|eauto].
-    exfalso. apply NI. rewrite E. apply nth_error_In in H. unfold env_ids.
-    apply (in_map (fun p : ident * value => idn (fst p))) in H. exact H.
-Qed.
-Lemma env_ctx_nth c e i y v :
-  env_ids e = ids c -> nth_error e i = Some (y, v) -> exists b, nth_error c i = Some b /\ idn (bvar b) = idn y.
-Proof.
-  intros E H. assert (H1 : nth_error (env_ids e) i = Some (idn y)).
-  { unfold env_ids. now rewrite (map_nth_error _ _ _ H). }
-  rewrite E in H1. unfold ids in H1. destruct (nth_error c i) as [b|] eqn:Hc.
-  - rewrite (map_nth_error _ _ _ Hc) in H1. inversion H1. eauto.
-  - apply nth_error_None in Hc. assert (H2 : (i < List.length (map (fun b => idn (bvar b)) c))%nat) by (apply nth_error_Some; congruence).
-    rewrite map_length in H2. lia.
-Qed.
 
 (* a variable temporary is usable by every selection lemma *)
 Lemma xtpos_ok n i t : xtpos n i = Ok t -> loc_ok t /\ t <> XR TEMP /\ t <> XS SPILL_TEMP /\ t <> XR FREE /\ t <> XR HEAP.
